@@ -1,6 +1,7 @@
 import Setec.Proofs.DB
 import Setec.Proofs.Crypto
 import Setec.Generated.Facts
+import Setec.Proofs.DBText
 /-!
 # C03 - acknowledged state survives restart exactly; schema-v1 files stay readable
 
@@ -64,5 +65,19 @@ theorem layout_v1 :
 /-- non-vacuity: a non-trivial state round-trips -/
 example : (decode (encode ((∅ : SMap).insert "a" { versions := ((∅ : VMap).insert 1 [1,2]).insert 3 [], active := 1, latest := 3 }))).isSome :=
   by rw [decode_encode]; rfl
+
+/-- the clear document as text: what `kv.save` marshals for contents `m` (names, version keys
+and values rendered as encoding/json and `byteString.MarshalText` render them) reads back,
+through the text layer and the tree codec, as exactly `m` - for every name, version set,
+byte string and counter.  The renderer is compared byte for byte with the decrypted file by
+the `db` family (`persist` profile). -/
+theorem clear_document_roundtrip (m : KV.SMap) :
+    DBText.decodeText (DBText.renderTree (Codec.encode m)) = some m :=
+  DBText.decodeText_render m
+
+/-- the text layer alone does not depend on the order of entries or of version keys (Go writes
+them sorted as strings, so "10" precedes "2"): every tree reads back as itself -/
+theorem clear_text_roundtrip (t : Codec.PTree) : DBText.readTree (DBText.renderTree t) = some t :=
+  DBText.readTree_render t
 
 end Setec.C03
